@@ -216,6 +216,7 @@ def showTableHam (bs : List TBond) : String :=
   s!"H{bs.length}!" ++ String.intercalate "!" (bs.map fun b => s!"{showNats b.vars}:{showBool b.const}:{showRats b.mat}")
 
 def showSweep (c : Config) (rs : RS) : String :=
+  if rs.panicked then "PANIC" else
   s!"{showSlots c.slots} {showBits c.state} {rs.verdict}"
 
 def showTable (t : Option BW) : String :=
